@@ -704,6 +704,41 @@ theorem trans_C11_effMot_is_model (c : BCfg) (w : Nat) (r : T_v2_batcher) :
     v2_effMot r c.mot (c.wMot w) = (effMot c w : Nat) := by
   rw [trans_C11_effMot_v2]; simp [effMot]
 
+/-! ### Batcher: the capacity arm of the loop -/
+
+/-- every CapacityInterval tick with a rate limiter attached calls `GiveMe` with the demand as it is at that moment
+(`NeedsCapacity()`), and without a limiter calls nothing -/
+theorem trans_C12_capacityArm_v2 (target : Nat) (limited emitRequest : Bool) :
+    v2_capacityArm ⟨target⟩ limited emitRequest = (limited, if limited then (target : Int) else 0) := by
+  cases limited <;> simp [v2_capacityArm, v2_NeedsCapacity]
+
+theorem trans_C12_capacityArm_v1 (target : Nat) (limited : Bool) :
+    v1_capacityArm ⟨target⟩ limited = (limited, if limited then (target : Int) else 0) := by
+  cases limited <;> simp [v1_capacityArm, v1_NeedsCapacity, v1_getTarget]
+
+/-- ... which is the machine's `takeCap` label: the request it records is the one the translated arm makes -/
+theorem trans_C12_capacityArm_is_takeCap (c : BCfg) (s s' : St) (e : Bool) (h : step c s .takeCap = some s') :
+    s'.giveMes = s.giveMes ++
+      (if (v2_capacityArm ⟨s.target⟩ c.limited e).1 then [(s.now, (v2_capacityArm ⟨s.target⟩ c.limited e).2.toNat)] else []) := by
+  rw [trans_C12_capacityArm_v2]
+  simp only [step] at h
+  split at h
+  · cases h; cases c.limited <;> simp
+  · cases h
+
+/-! ### Batcher: the pause arm of the loop -/
+
+/-- taking a pause request: the loop sleeps EXACTLY PauseTime (one `time.Sleep(r.pauseTime)`, nothing else that takes
+time), then `resume()` puts the phase back to started only if it is still paused - a Stop() that arrived during the
+pause (phase stopped = 3) is not undone (C16) -/
+theorem trans_C13_C16_pauseArm_v2 (ph pauseTime : Int) :
+    v2_pauseArm ⟨ph⟩ pauseTime = (⟨if ph = 2 then 1 else ph⟩, true, pauseTime) := by
+  by_cases h : ph = 2 <;> simp [v2_pauseArm, v2_resume, h]
+
+theorem trans_C13_C16_pauseArm_v1 (ph pauseTime : Int) :
+    v1_pauseArm ⟨ph⟩ pauseTime = (⟨if ph = 2 then 1 else ph⟩, true, pauseTime) := by
+  by_cases h : ph = 2 <;> simp [v1_pauseArm, v1_resume, h]
+
 /-! ### non-vacuity: the translated functions on concrete values (also a readable trace of what they compute) -/
 
 example : v2_incTarget ⟨7⟩ 5 = ⟨12⟩ ∧ v2_incTarget ⟨7⟩ (-5) = ⟨2⟩ ∧ v2_incTarget ⟨7⟩ (-9) = ⟨0⟩ ∧ v2_incTarget ⟨7⟩ 0 = ⟨7⟩ := by decide
